@@ -624,12 +624,12 @@ package k8s
 
 // a rule that reports a verdict for the query has a port entry capturing it on the destination pod
 //@ func checkIfIngressRuleContainsConn
-//@   requires realDst(dst) && dyntype(dst, *PodPeer) && validAPs(rulePorts)
+//@   requires realDst(dst) && dyntype(dst, *PodPeer) && validAPs(rulePorts) && realPeer(src)
 //@   modifies *
 //@   ensures [C03,C02] captured: (err == nil && res != NotCaptured && !(protocol == "" && port == "") && 1 <= atoiVal(port) && atoiVal(port) <= 65535) ==>
 //@         anpPortsCapture(rulePorts, dst, protocol, port)
 //@ func checkIfEgressRuleContainsConn
-//@   requires realDst(dst) && dyntype(dst, *PodPeer) && validAPs(rulePorts)
+//@   requires realDst(dst) && dyntype(dst, *PodPeer) && validAPs(rulePorts) && realPeer(dst)
 //@   modifies *
 //@   ensures [C03,C02] captured: (err == nil && res != NotCaptured && !(protocol == "" && port == "") && 1 <= atoiVal(port) && atoiVal(port) <= 65535) ==>
 //@         anpPortsCapture(rulePorts, dst, protocol, port)
